@@ -93,7 +93,7 @@ static Probe probe(const Plan& plan, const std::string& prop, bool want_stderr =
         close(fds[0]);
         close(efds[0]);
         dup2(efds[1], 2);
-        cpu_alarm(240);
+        cpu_alarm(40);
         RunResult r = run_plan(plan, opts_for(prop));
         J o = J::obj();
         o.set("status", r.status);
@@ -431,6 +431,8 @@ static J handle_failure(
     Minimiser mz;
     mz.prop = prop;
     mz.key = first.key;
+    if (first.key.find("signal-27") != std::string::npos)
+        mz.budget = 25; // a spinning run costs its whole CPU limit per probe
     Plan small = mz.run(plan);
     out.set("minimise_runs", mz.runs);
     out.set("events_before", (int)plan.events.size());
@@ -488,7 +490,7 @@ static void child_loop(
         fprintf(out, "S %ld %016llx\n", i, (unsigned long long)seed);
         fflush(out);
         Plan plan = generate(prop, seed, tier);
-        cpu_alarm(180); // a run that hangs (a cyclic catalog...) is a crash
+        cpu_alarm(30); // a run that hangs (a cyclic catalog...) is a crash
         RunResult r = run_plan(plan, o);
         cpu_alarm(0);
         total.add(r.st);
